@@ -245,12 +245,23 @@ def build_landuse_file(cfg):
     f.createDimension('COL', nx)
     j = np.arange(1, ny + 1)[:, None]
     i = np.arange(1, nx + 1)[None, :]
-    v = f.createVariable('FLAND', 'f', ('LANDUSE', 'ROW', 'COL'))
-    for k in range(nl):
-        v[k] = (((1 * 5 + 1) * 5 + k + 1) * 5 + j) * 5 + i
-    for o, name in enumerate(luname(cfg)[1:]):
+    # the order in which the source's variables were created is not the
+    # order of the layout: in the second variant of every configuration
+    # (the one written "without ETFLAG" for the gridded formats) the optional
+    # records are created first, last one first
+    def fland():
+        v = f.createVariable('FLAND', 'f', ('LANDUSE', 'ROW', 'COL'))
+        for k in range(nl):
+            v[k] = (((1 * 5 + 1) * 5 + k + 1) * 5 + j) * 5 + i
+    opt = list(enumerate(luname(cfg)[1:]))
+    canonical = cfg.get('with_etflag', True)
+    if canonical:
+        fland()
+    for o, name in (opt if canonical else opt[::-1]):
         w = f.createVariable(name, 'f', ('ROW', 'COL'))
         w[...] = ((((o + 2) * 5 + 1) * 5 + 0) * 5 + j) * 5 + i
+    if not canonical:
+        fland()
     f._newstyle = bool(cfg['newstyle'])
     return f
 
